@@ -209,9 +209,22 @@ void XMLWriter::location(const location_t& loc)
     endElement();  // end of the "location" element
 }
 
+/* writes a branchpoint: identifiers continue after the location numbers */
+void XMLWriter::branchpoint(const branchpoint_t& bp)
+{
+    int nr = branchpointBase + bp.bpNr;
+    startElement("branchpoint");
+    writeAttribute("id", concat("id", nr).c_str());
+    writeAttribute("x", std::to_string(STEP * nr).c_str());
+    writeAttribute("y", std::to_string(STEP * nr).c_str());
+    endElement();
+}
+
 /* writes the init tag */
 void XMLWriter::init(const template_t& templ)
 {
+    if (templ.init.get_data() == nullptr)
+        return;
     int id = static_cast<const location_t*>(templ.init.get_data())->nr;
     startElement("init");
     writeAttribute("ref", concat("id", id).c_str());
@@ -221,7 +234,7 @@ void XMLWriter::init(const template_t& templ)
 /* writes the source of the given edge */
 int XMLWriter::source(const edge_t& edge)
 {
-    int loc = edge.src->nr;
+    int loc = (edge.src != nullptr) ? edge.src->nr : branchpointBase + edge.srcb->bpNr;
     const auto id = concat("id", loc);
     startElement("source");
     writeAttribute("ref", id.c_str());
@@ -232,7 +245,7 @@ int XMLWriter::source(const edge_t& edge)
 /* writes the target of the given edge */
 int XMLWriter::target(const edge_t& edge)
 {
-    int loc = edge.dst->nr;
+    int loc = (edge.dst != nullptr) ? edge.dst->nr : branchpointBase + edge.dstb->bpNr;
     const auto id = concat("id", loc);
     startElement("target");
     writeAttribute("ref", id.c_str());
@@ -275,7 +288,7 @@ void XMLWriter::transition(const edge_t& edge)
     auto src = source(edge);
     auto dst = target(edge);
     if (src == dst) {
-        float angle = (edge.src->uid.get_name() != "lpmin") ? (3 * M_PI_2) : M_PI;
+        float angle = (edge.src == nullptr || edge.src->uid.get_name() != "lpmin") ? (3 * M_PI_2) : M_PI;
         selfLoop(src, angle, edge);
     } else {
         int x = STEP * src;
@@ -329,6 +342,10 @@ void XMLWriter::taTempl(const template_t& templ)
         location(loc);
         selfLoops[loc.nr] = 0;
     }
+    // branchpoints
+    branchpointBase = static_cast<int>(templ.locations.size());
+    for (auto& bp : templ.branchpoints)
+        branchpoint(bp);
     // initial location
     init(templ);
     // transitions
